@@ -11,6 +11,9 @@ package agent
 // and for every learned route in all four tables:  Metric == origin metric (0) + len(Path),
 // i.e. the hop count along the recorded path; and, in quiescent converged states with two
 // exits advertising the same prefix, lookup prefers the nearer exit.
+//
+// Second family (reroute_test.go): re-announcement after a topology change behind an unchanged next
+// hop (link failure / late chord between the next hop and the origin); same clause, every event.
 
 import (
 	"fmt"
@@ -73,9 +76,21 @@ func c13Check(r *vmc.Result, sc nsFloodScenario) func(nt *nsNet, hist []string) 
 
 func TestVerif_C13(t *testing.T) {
 	r := vmc.New("C13", "model_checking")
-	r.Rule = "BFS over all interleavings of announcements and frame deliveries in meshes of real agents (all connected graphs up to 4 agents; exit placements); every learned route in every reached state is checked; non-trivial = distinct (table kind, hop count, metric) combinations and nearer-exit lookups observed"
+	r.Rule = "BFS over all interleavings of announcements and frame deliveries in meshes of real agents (all connected graphs up to 4 agents; exit placements); every learned route in every reached state is checked; plus the reroute family (reroute_test.go): 4-5 agent graphs where the link between A's only neighbour B and the origin fails or comes up late and the origin announces again, every order of announce / deliver / link down / link up, same clause after every event; non-trivial = distinct (table kind, hop count, metric) combinations, nearer-exit lookups, and (table kind, hops before -> after) of entries rewritten over an unchanged next hop observed"
 	r.Assume("links are FIFO and reliable; handlers run synchronously per delivered frame (the real agent processes stream-ordered frames sequentially per connection)")
 	r.Assume("map iteration order is fixed to sorted order by the maprange rewriter (routing tables, flooder, peer manager)")
+	var fam struct {
+		Family string `json:"family"`
+	}
+	if r.ReplayInto(&fam) && fam.Family == "reroute" {
+		var rr c13rrScenario
+		r.ReplayInto(&rr)
+		c13rrReplay(t, r, rr)
+		if err := r.Finish(); err != nil {
+			t.Fatal(err)
+		}
+		return
+	}
 	var rp nsFloodScenario
 	if r.ReplayInto(&rp) {
 		chk := c13Check(r, rp)
@@ -107,6 +122,9 @@ func TestVerif_C13(t *testing.T) {
 	scs = append(scs,
 		nsFloodScenario{N: 3, Edges: [][2]int{{0, 1}}, LateEdges: [][2]int{{1, 2}}, Exits: []int{0}, Announces: 1},
 		nsFloodScenario{N: 4, Edges: [][2]int{{0, 1}, {1, 2}}, LateEdges: [][2]int{{2, 3}}, Exits: []int{0}, Announces: 1})
+	// re-announcement after a topology change behind an unchanged next hop (reroute_test.go); first, so that the
+	// thorough tier's large base graphs cannot use up the deadline before this family has run
+	c13rrRun(t, r)
 	for _, sc := range scs {
 		if r.Expired() {
 			break
